@@ -29,7 +29,7 @@ def run(ctx, report):
     fold_loop = loop
     env = {}
     try:
-        env['op_assoc'] = Evaluator({}).ev(hlp.assign_value('op_assoc'))
+        OP_ASSOC = env['op_assoc'] = Evaluator({}).ev(hlp.assign_value('op_assoc'))
     except (NotConst, AnalysisError) as e:
         raise AnalysisError('expression_helper.op_assoc not evaluable: %s' % e)
     ev = Evaluator(env)
@@ -270,12 +270,47 @@ def run(ctx, report):
         else:
             R4.violation('mask-shift-bound', 'rewrite:mask-shift:unbounded', 'the side condition of ((A & mask) >> shift) evaluates 2**shift for any constant shift', where(hlp, n),
                          witness='expr_simp((a & 1) >> 0x80000000) takes seconds and gigabytes')
-    # A <<< size(A) -> A
-    for n in ifs_where(lambda t: "op in ['<<<', '>>>']" in t and 'get_size()' in t):
+    # A <<< size(A) -> A : identified by its action (the If that returns the rotated operand unchanged)
+    def returns_operand(n):
+        return any(isinstance(x, ast.Return) and x.value is not None and u(x.value) == 'args[0]' for x in n.body)
+    for n in ifs_where(lambda t: "op in ['<<<', '>>>']" in t):
+        if not returns_operand(n):
+            continue
         if 'args[1].arg == args[0].get_size()' in u(n.test):
             R4.ok('rot-by-size', sample='A <<< size(A) -> A')
         else:
             R4.violation('rot-by-size', 'rewrite:rot-by-size', 'rotation identity fires under %s, expected count == operand size' % u(n.test), where(hlp, n))
+    # (A <<< X) <<< Y -> A <<< (X+Y): the two counts are added, so they must have the same width
+    for n in ifs_where(lambda t: "op in ['<<<', '>>>']" in t):
+        sums = [x for st in n.body for x in ast.walk(st) if isinstance(x, ast.BinOp) and isinstance(x.op, (ast.Add, ast.Sub))
+                and u(x.left) == 'args[0].args[1]' and u(x.right) == 'args[1]']
+        if not sums:
+            continue
+        t = u(n.test).replace(' ', '')
+        if 'args[0].args[1].get_size()==args[1].get_size()' in t or 'args[1].get_size()==args[0].args[1].get_size()' in t:
+            R4.ok('rot-merge-width', sample='(A <<< X) <<< Y merged only when X and Y have the same width')
+        else:
+            R4.violation('rot-merge-width', 'rewrite:rot-merge:width', 'nested rotations are merged by adding their counts (%s) without requiring the counts to have the same width'
+                         % u(sums[0]), where(hlp, n), witness="expr_simp(ExprOp('>>>', ExprOp('>>>', s, ecx & 0x1f), ExprInt8(3))) builds a 32-bit + 8-bit sum")
+    # constant folding: equal widths are demanded of the operands of the associative operators only (a shift count may be narrower)
+    diff = [n for n in walk_no_nested(fold_loop) if isinstance(n, ast.If) and 'i1.get_size() != i2.get_size()' in u(n.test) and any(isinstance(x, ast.Raise) for x in n.body)]
+    for n in diff:
+        from ..consteval import Evaluator as _Ev, NotConst as _NC, Obj as _Obj, Native as _Nat
+        verdict = {}
+        for opv in ('+', '>>', '<<'):
+            i1, i2 = _Obj('i1'), _Obj('i2')
+            i1.get_size = _Nat(lambda: 32)
+            i2.get_size = _Nat(lambda: 8)
+            try:
+                verdict[opv] = bool(_Ev({'op': opv, 'op_assoc': list(OP_ASSOC), 'i1': i1, 'i2': i2}).ev(n.test))
+            except _NC as e:
+                raise AnalysisError('fold loop width test not evaluable: %s' % e)
+        if verdict['+'] and not verdict['>>'] and not verdict['<<']:
+            R4.ok('shift-fold-mixed', sample='int OP int: equal widths demanded for associative operators, not for shift counts')
+        else:
+            R4.violation('shift-fold-mixed', 'rewrite:shift-fold:width', 'constant folding raises "diff size" under `%s` (raises for +: %s, >>: %s, <<: %s): a constant shift by a narrower count '
+                         '(the lifter\'s imm8 / cl counts) cannot be folded' % (u(n.test), verdict['+'], verdict['>>'], verdict['<<']), where(hlp, n),
+                         witness="expr_simp(ExprOp('>>', ExprInt32(0x100), ExprInt8(4))) raises ValueError")
     # (A | c) == 0 -> 0 needs c != 0
     for n in ifs_where(lambda t: "op == '=='" in t and 'args[1].arg == 0' in t):
         inner = [x for x in ast.walk(n) if isinstance(x, ast.If) and "args[0].op == '|'" in u(x.test)]
@@ -374,6 +409,7 @@ def run(ctx, report):
 
 
 MUTANTS = [
+    ('fold-shift-width', 'miasmx/expression/expression_helper.py', "                if op in op_assoc and i1.get_size() != i2.get_size():", "                if i1.get_size() != i2.get_size():", 'C05.D4'),
     ('slice-mem-noseg', 'miasmx/expression/expression_helper.py', "e = ExprMem(e.arg.arg, size = e.stop, segm = e.arg.segm)", "e = ExprMem(e.arg.arg, size = e.stop)", 'C05.D4'),
     ('shift-fold-unbounded', 'miasmx/expression/expression_helper.py', "                elif op in ['>>', '<<'] and i2.arg >= i1.get_size():\n                    # every bit is shifted out (do not build the huge\n                    # intermediate integer)\n                    o = 0\n", "", 'C05.D4'),
     ('mask-shift-nonstrict', 'miasmx/expression/expression_helper.py', "2**args[1].arg > args[0].args[1].arg", "2**args[1].arg >= args[0].args[1].arg", 'C05.D4'),
